@@ -56,6 +56,13 @@ _MOLDEF = {
     "H2_uhf": dict(xyz=[("H", (0., 0., 0.)), ("H", (0., 0., 1.2))], q=0, spin=0, uhf=True),
     "H2-_uhf": dict(xyz=[("H", (0., 0., 0.)), ("H", (0., 0., 0.9))], q=-1, spin=1, uhf=True),
     "H4+_uhf": dict(xyz=_H4_XYZ, q=1, spin=1, uhf=True),
+    # higher spins (the scBK encoding depends on the spin through the parity (-1)**n_alpha of its dropped qubits)
+    "H3+_t": dict(xyz=[("H", (0., 0., 0.)), ("H", (0., 0., 0.9)), ("H", (0., 0.78, 0.45))], q=1, spin=2),              # triplet ROHF, 6 spin orbitals
+    "H3+_t_uhf": dict(xyz=[("H", (0., 0., 0.)), ("H", (0., 0., 0.9)), ("H", (0., 0.78, 0.45))], q=1, spin=2, uhf=True),
+    "H2_t": dict(xyz=[("H", (0., 0., 0.)), ("H", (0., 0., 0.8))], q=0, spin=2),                                         # triplet, no excitation left
+    "H3_q": dict(xyz=[("H", (0., 0., 0.)), ("H", (0., 0., 0.9)), ("H", (0., 0.78, 0.45))], q=0, spin=3),               # quartet
+    "H4_t": dict(xyz=_H4_XYZ, q=0, spin=2),
+    "H4_t_uhf": dict(xyz=_H4_XYZ, q=0, spin=2, uhf=True),
     # open-shell UHF with frozen occupied sets that are non-empty AND different per spin (alpha {0,1}, beta {0}; beta also
     # freezes virtual 3): 2 active orbitals per spin, (1, 1) active electrons, 4 qubits
     "H4-_uhf_fz": dict(xyz=_H4_XYZ, q=-1, spin=1, uhf=True, frozen=[[0, 1], [0, 3]]),
